@@ -76,10 +76,10 @@ static const struct ztype zoo[T_NTYPES] = {
     [T_GENAUX]     = { "genaux", upipe_genaux_mgr_alloc, CLS_REGROUP, true, false, 0 },
 };
 
-enum { CL_SWAP_AFTER_DATA, CL_RELEASE_MID, CL_SUBCHURN, CL_REJECT, CL_FLOWDEF_CHANGE, CL_DELIVERED8, CL_SEGMENTED, CL_OPT_REJECTED, CL_OPT_GET_AFTER_SET, CL_CHAIN2, CL_POOL };
+enum { CL_SWAP_AFTER_DATA, CL_RELEASE_MID, CL_SUBCHURN, CL_REJECT, CL_FLOWDEF_CHANGE, CL_DELIVERED8, CL_SEGMENTED, CL_OPT_REJECTED, CL_OPT_GET_AFTER_SET, CL_CHAIN2, CL_POOL, CL_REPLUG };
 static const char *const class_names[] = {
     "output_replaced_after_data", "release_in_mid_history", "subpipe_churn", "sink_rejected_flow_def", "flow_def_changed_after_data",
-    "delivered_ge_8", "segmented_payload", "option_set_rejected", "option_get_after_set_then_data", "chain_of_2plus", "pool_depth_gt0", NULL };
+    "delivered_ge_8", "segmented_payload", "option_set_rejected", "option_get_after_set_then_data", "chain_of_2plus", "pool_depth_gt0", "output_plugged_from_need_output", NULL };
 
 enum out_kind { OUT_NONE = 0, OUT_NEXT, OUT_SINKA, OUT_SINKB };
 enum hstate { H_NONE = 0, H_VALID, H_INVALID };
@@ -127,6 +127,7 @@ struct ctx {
     bool got_after_set;
     bool skip_getters;      /* C20 second pass: same history without the getter calls */
     int force_pool;         /* C01 second pass: pool depth override (-1: from the tape) */
+    int replugs;            /* C01: outputs plugged from need_output so far */
     uint64_t trace;         /* hash of everything the sinks saw */
 };
 
@@ -795,6 +796,25 @@ static void op_option(struct ctx *c)
 
 static struct ctx ctx;
 
+#if PIPES_PROP == 1
+static int replug_on_need_output(struct pfx *pfx, int probe_id, struct upipe *upipe, void *opaque)
+{
+    struct ctx *c = opaque;
+    for (int j = 0; j < c->np; j++) {
+        struct zpipe *z = &c->p[j];
+        if (z->probe != probe_id || z->upipe != upipe || !zoo[z->type].has_output) continue;
+        if (z->out == OUT_NEXT) return UBASE_ERR_UNHANDLED;         /* keeps its place in the chain */
+        enum out_kind to = z->out == OUT_SINKA ? OUT_SINKB : OUT_SINKA;
+        if (c->replugs++ >= 4) return UBASE_ERR_UNHANDLED;
+        R("      (need_output from p%d: the application plugs sink %c)\n", j, to == OUT_SINKA ? 'A' : 'B');
+        z->out = to;
+        c->classes |= 1u << CL_REPLUG;
+        return upipe_set_output(upipe, to == OUT_SINKA ? c->sink[0] : c->sink[1]);
+    }
+    return UBASE_ERR_UNHANDLED;
+}
+#endif
+
 static int run_once(const uint8_t *tp_, size_t len, struct vp_report *rep, unsigned flags, bool skip_getters, int force_pool)
 {
     struct ctx *c = &ctx;
@@ -815,6 +835,12 @@ static int run_once(const uint8_t *tp_, size_t len, struct vp_report *rep, unsig
         c->sink[i] = pfx_sink_alloc(&c->pfx, &c->sinkid[i]);
         pfx_sink(&c->pfx, c->sinkid[i])->uref_policy = PFX_SINK_KEEP;
     }
+#if PIPES_PROP == 1
+    /* C01 only (the delivery models of the other properties do not follow it): in a share of the cases the application answers
+     * need_output -- thrown when a pipe has no output, or when its output refused the flow definition -- by plugging the OTHER
+     * sink, as applications that build their pipelines lazily do */
+    if ((cfgb / 12) % 3 == 2) { c->pfx.need_output_hook = replug_on_need_output; c->pfx.need_output_opaque = c; }
+#endif
     c->np = 1 + tp_u8(&c->t) % MAXP;
     if (c->np >= 2) c->classes |= 1u << CL_CHAIN2;
     for (int j = 0; j < c->np; j++) {
